@@ -22,7 +22,14 @@ def U(n):
     return '%08d-1111-1111-1111-111111111111' % n
 
 
+# an aggregate may be stored under another spelling of a uuid (aggregate
+# uuids are kept verbatim by PUT .../aggregates); set for one path
+AGG_ALIAS = {}
+
+
 def AGG(n):
+    if n in AGG_ALIAS:
+        return AGG_ALIAS[n]
     return '%08d-aaaa-aaaa-aaaa-aaaaaaaaaaaa' % n
 
 
